@@ -647,7 +647,7 @@ static void do_run(State &st, Prog *pp, CodeObj *co, const std::string &mode_s, 
     make_inputs(meta, ds, n, again);
     // ... whatever state the executor structure was in before (fresh and zeroed, or holding the leftovers of
     // earlier calls, as the uninitialised executors of generated wrappers do)
-    again.exstyle = 1 - again.exstyle;
+    again.exstyle = again.exstyle == 1 ? 0 : 1;
     again.exgarbage = mix2(again.exgarbage, 0x5ca1ab1e);
     g_cur_slot = slot;
     run_with(pp ? pp->p : nullptr, pp ? nullptr : co->c, meta, mode, again);
@@ -836,6 +836,7 @@ static void hist_run(const std::vector<std::string> &plan, Child &c) {
         if (kvi(w, "backup", 0) && p.id < MAX_BACKUP) {
           p.backup_slot = p.id;
           orc_program_set_backup_function(p.p, backup_fn);
+          orc_program_set_backup_name(p.p, strf("backup_of_%s", name.c_str()).c_str());
         }
         c.event("  built %s insns=%d ops=[%s]", name.c_str(), p.meta.n_insns, p.meta.opnames.c_str());
         st.progs.push_back(p);
@@ -1125,7 +1126,7 @@ static void hist_run(const std::vector<std::string> &plan, Child &c) {
             RunData a, b;
             make_inputs(meta, kvu(w, "ds"), 0, a);
             make_inputs(meta, kvu(w, "ds"), 0, b);
-            b.exstyle = 1 - a.exstyle;   // same code, same inputs, executor structure in a different prior state
+            b.exstyle = a.exstyle == 1 ? 0 : 1;   // same code, same inputs, executor structure in a different prior state
             b.exgarbage = mix2(a.exgarbage, 0x5ca1ab1e);
             run_with(p, nullptr, meta, RUN_EXEC, a);
             run_with(p, nullptr, meta, RUN_EXEC, b);
